@@ -376,6 +376,11 @@ inline bool do_decode_resize(std::vector<T>& v, const uint8_t*& pos, const uint8
     {
         return false;
     }
+    if (size_t(n) > size_t(end - pos))
+    {
+        /// every element takes at least one byte on the wire
+        return false;
+    }
     v.resize(n);
     return true;
 }
